@@ -44,10 +44,13 @@ func (gw *groupWriter) close() error {
 		// don't print begin/end messages if there's no buffered entries
 		return nil
 	}
-	if _, err := io.WriteString(gw.writer, gw.begin); err != nil {
-		return err
-	}
-	gw.buff.WriteString(gw.end)
-	_, err := io.Copy(gw.writer, &gw.buff)
+	// Emit the whole group with a single write so that the groups of
+	// commands finishing at the same time cannot interleave
+	var block bytes.Buffer
+	block.Grow(len(gw.begin) + gw.buff.Len() + len(gw.end))
+	block.WriteString(gw.begin)
+	_, _ = gw.buff.WriteTo(&block)
+	block.WriteString(gw.end)
+	_, err := gw.writer.Write(block.Bytes())
 	return err
 }
